@@ -3177,13 +3177,14 @@ def emit(ast: Program) -> str:
         helper_lines = [
             f"float __redu_ultrasonic_measure_{name}() {{",
             f"  static unsigned long __redu_last_trigger_ms_{name} = 0UL;",
+            f"  static bool __redu_has_triggered_{name} = false;",
             f"  static float __redu_last_distance_{name} = 400.0f;",
             f"  static bool __redu_has_distance_{name} = false;",
             f"  const unsigned long __redu_min_interval_ms_{name} = 60UL;",
             f"  const unsigned int __redu_max_attempts_{name} = 3U;",
             f"  for (unsigned int __redu_attempt_{name} = 0U; __redu_attempt_{name} < __redu_max_attempts_{name}; ++__redu_attempt_{name}) {{",
             f"    unsigned long __redu_now_ms_{name} = millis();",
-            f"    if (__redu_last_trigger_ms_{name} != 0UL) {{",
+            f"    if (__redu_has_triggered_{name}) {{",
             f"      unsigned long __redu_elapsed_ms_{name} = __redu_now_ms_{name} - __redu_last_trigger_ms_{name};",
             f"      if (__redu_elapsed_ms_{name} < __redu_min_interval_ms_{name}) {{",
             f"        delay(__redu_min_interval_ms_{name} - __redu_elapsed_ms_{name});",
@@ -3197,6 +3198,7 @@ def emit(ast: Program) -> str:
             f"    digitalWrite({trig_expr}, LOW);",
             f"    unsigned long __redu_duration_{name} = pulseIn({echo_expr}, HIGH, 30000UL);",
             f"    __redu_last_trigger_ms_{name} = millis();",
+            f"    __redu_has_triggered_{name} = true;",
             f"    if (__redu_duration_{name} > 0UL) {{",
             f"      float __redu_distance_{name} = (static_cast<float>(__redu_duration_{name}) * 0.0343f) / 2.0f;",
             f"      __redu_last_distance_{name} = __redu_distance_{name};",
